@@ -277,7 +277,7 @@ func hexHead(b []byte) string {
 
 func c06Main(args []string) {
 	run := ev.NewRun("C06")
-	run.Rule = "mutation family (every truncation <768 then every 61st + last 64; every bit flip in the first 192 bytes; byte overwrite {00,7f,80,ff} at every offset <384, then ff at every offset and {00,7f,80} every 31st; 1/2/4/8-byte length saturation patterns in the first 256 bytes; block dup/remove of 1/4/16/64 bytes every 16) around <=6 corpus samples per format (3 smallest + 3 spread up to 16 KiB), x all registered formats + probe x force; quick = PRNG slice of 250000 with an equal share per format (1/4 forced), thorough = the whole family enumerated (every mutation also forced); both tiers add the field-start cases: the first byte of every leaf field of every own sample set to ff / 00, decoded under the sample's own format. Event = Go panic escaping decode.Decode / interp.Main or worker death by a Go fatal error. non-trivial = mutated input that still produced a (partial) tree; distinct = (outcome, format, mutation kind, seed)"
+	run.Rule = "mutation family (every truncation <768 then every 61st + last 64; every bit flip in the first 192 bytes; byte overwrite {00,7f,80,ff} at every offset <384, then ff at every offset and {00,7f,80} every 31st; 1/2/4/8-byte length saturation patterns in the first 256 bytes; block dup/remove of 1/4/16/64 bytes every 16) around <=6 corpus samples per format (3 smallest + 3 spread up to 16 KiB), x all registered formats + probe x force; quick = PRNG slice of 250000 with an equal share per format (1/4 forced), thorough = every third case of the enumerated family, residue = VERIF_SEED mod 3 (every mutation also forced); both tiers add the field-start cases: the first byte of every leaf field of every own sample set to ff / 00, decoded under the sample's own format. Event = Go panic escaping decode.Decode / interp.Main or worker death by a Go fatal error. non-trivial = mutated input that still produced a (partial) tree; distinct = (outcome, format, mutation kind, seed)"
 	run.Assumptions = []string{
 		"out-of-memory kills and watchdog expiry (decoder loops / length-field bombs under force) are inconclusive, listed per format, never a verdict",
 		"a panic is identified by (format, top-most fq frame, panic class)",
@@ -285,9 +285,13 @@ func c06Main(args []string) {
 	var n int
 	var get func(k int) c06Case
 	if run.Thorough() {
+		// the whole family is ~19 million cases (~2 h on 16 idle cores): one run enumerates every third case,
+		// the residue chosen by VERIF_SEED, so that seeds 0,1,2 (or 1,2,3) together cover all of it
 		e := c06EnumBuild()
-		n = e.total
-		get = e.Case
+		phase := int(run.Seed % 3)
+		n = (e.total - phase + 2) / 3
+		get = func(k int) c06Case { return e.Case(k*3 + phase) }
+		run.Count("family:cases-in-whole-family", int64(e.total))
 	} else {
 		n = 250000
 		get = func(k int) c06Case { return c06QuickCase(run.Seed, k) }
